@@ -20,6 +20,17 @@
 
 const EX_DEAD: u64 = 0xdead;
 
+// `c12-vtexpr` (same arguments): the same with the expression as the `DW_AT_vtable_elem_location` of
+// `x` — the converter copies such an expression verbatim when it is exactly one `DW_OP_constu`
+// (the vtable index shape that gdb matches) and converts it like any other expression otherwise.
+thread_local! {
+    static EX_AT: std::cell::Cell<gimli::DwAt> = const { std::cell::Cell::new(gimli::DW_AT_location) };
+}
+
+fn ex_at() -> gimli::DwAt {
+    EX_AT.with(|c| c.get())
+}
+
 fn ex_encoding(asz: &str, fmt: &str, ver: &str) -> Option<Encoding> {
     let address_size: u8 = asz.parse().ok()?;
     if !matches!(address_size, 4 | 8) {
@@ -46,7 +57,7 @@ fn ex_input(enc: Encoding, e: RunTimeEndian, expr: &[u8], addr: &[u8]) -> Result
             unit.get_mut(id).set(gimli::DW_AT_byte_size, WAttr::Data1(4));
         }
         if name == "x" {
-            unit.get_mut(id).set(gimli::DW_AT_location, WAttr::Exprloc(write::Expression::raw(expr.to_vec())));
+            unit.get_mut(id).set(ex_at(), WAttr::Exprloc(write::Expression::raw(expr.to_vec())));
         }
     }
     let mut sections = Sections::new(EndianVec::new(e));
@@ -82,7 +93,7 @@ fn ex_read(secs: &[(String, Vec<u8>)], e: RunTimeEndian) -> Result<ExUnit, Strin
         let name = dwarf.attr_string(&unit, a).map_err(|x| format!("{x:?}"))?;
         let name = String::from_utf8_lossy(name.slice()).to_string();
         if name == "x" {
-            if let Some(v) = entry.attr_value(gimli::DW_AT_location) {
+            if let Some(v) = entry.attr_value(ex_at()) {
                 expr = v.exprloc_value().map(|x| x.0.slice().to_vec());
             }
         }
@@ -491,7 +502,9 @@ impl<'a> ExGen<'a> {
 
 fn ex_gen(ctx: &Ctx, emit: &mut dyn FnMut(String)) {
     let mut r = ctx.rng(1212);
-    let mut maps: std::collections::HashMap<(u16, u8, u8, bool), Option<(String, Vec<(char, u64)>, u64)>> = std::collections::HashMap::new();
+    let mut maps: std::collections::HashMap<(u16, u8, u8, bool, bool), Option<(String, Vec<(char, u64)>, u64)>> = std::collections::HashMap::new();
+    // set while the vtable-slot cases are generated: the carrier attribute is DW_AT_vtable_elem_location
+    let vt = std::cell::Cell::new(false);
     let table = |enc: Encoding, e: RunTimeEndian| -> Vec<u8> {
         let n = enc.address_size as usize;
         let mut t = Vec::new();
@@ -503,9 +516,12 @@ fn ex_gen(ctx: &Ctx, emit: &mut dyn FnMut(String)) {
     let mut case = |r: &mut Rng, body: &mut dyn FnMut(&mut Rng, &ExGen) -> Vec<u8>, emit: &mut dyn FnMut(String)| {
         let enc = Encoding { version: *r.pick(&[2u16, 3, 4, 5]), format: *r.pick(&[Format::Dwarf32, Format::Dwarf64]), address_size: *r.pick(&[4u8, 8]) };
         let e = *r.pick(&[RunTimeEndian::Little, RunTimeEndian::Little, RunTimeEndian::Big]);
-        let key = (enc.version, enc.format.word_size(), enc.address_size, e == RunTimeEndian::Little);
+        let key = (enc.version, enc.format.word_size(), enc.address_size, e == RunTimeEndian::Little, vt.get());
         let m = maps.entry(key).or_insert_with(|| {
-            let s = ex_map(enc, e)?;
+            EX_AT.with(|c| c.set(if vt.get() { gimli::DW_AT_vtable_elem_location } else { gimli::DW_AT_location }));
+            let s = ex_map(enc, e);
+            EX_AT.with(|c| c.set(gimli::DW_AT_location));
+            let s = s?;
             let all: Vec<(char, u64)> = s.split(',').map(|p| (p.chars().next().unwrap(), p[1..].split(':').next().unwrap().parse().unwrap())).collect();
             let late0 = all.iter().find(|p| p.0 == 'l')?.1;
             Some((s, all.into_iter().filter(|p| p.0 != 'l').collect(), late0))
@@ -520,7 +536,8 @@ fn ex_gen(ctx: &Ctx, emit: &mut dyn FnMut(String)) {
         let x = body(r, &g);
         let tab = if r.chance(1, 10) { Vec::new() } else { table(enc, e) };
         emit(format!(
-            "c12-expr {} {} {} {} {} {} {}",
+            "{} {} {} {} {} {} {} {}",
+            if vt.get() { "c12-vtexpr" } else { "c12-expr" },
             if e == RunTimeEndian::Little { "le" } else { "be" },
             enc.address_size,
             if enc.format == Format::Dwarf32 { "32" } else { "64" },
@@ -586,6 +603,27 @@ fn ex_gen(ctx: &Ctx, emit: &mut dyn FnMut(String)) {
             x
         }, emit);
     }
+    // vtable slots: DW_AT_vtable_elem_location is copied verbatim only when it is exactly `DW_OP_constu n`
+    vt.set(true);
+    for i in 0..ctx.n(1500, 20_000) {
+        case(&mut r, &mut |r, g| {
+            let n = *r.pick(&[0u64, 1, 5, 31, 32, 127, 128, 300, u64::MAX]);
+            let head: Vec<u8> = match i % 6 {
+                // the vtable index shape
+                0 | 1 => { let mut x = vec![0x10]; x.extend(asm::uleb(n)); x }
+                // other encodings of a constant (converted: the writer picks the shortest)
+                2 => if n < 32 { vec![0x30 + n as u8] } else { let mut x = vec![0x08]; x.push(n as u8); x },
+                _ => Vec::new(),
+            };
+            let mut x = head;
+            if i % 6 != 0 {
+                let k = r.range(if i % 6 == 1 { 1 } else { 0 }, 5) as usize;
+                x.extend(g.prog(r, 0, k));
+            }
+            x
+        }, emit);
+    }
+    vt.set(false);
     // nesting: 64 levels convert, the 65th nested entry_value is UnsupportedOperation (never a crash)
     for depth in [1usize, 2, 8, 40, 63, 64, 65, 66, 200, 3000] {
         case(&mut r, &mut |_r, g| {
